@@ -404,7 +404,10 @@ func c16Pressure(c *fw.Ctx, r *rand.Rand, idx int) {
 		s.sync()
 		s.paused.Store(true)
 		time.Sleep(2 * time.Millisecond)
-		n := 101 + r.Intn(3)
+		n := 101 // the reader takes one more line before it pauses: 101 readyok fill the 100-line queue exactly, loop idle
+		if r.Intn(4) == 0 {
+			n += 1 + r.Intn(2) // the loop itself is stuck on a readyok
+		}
 		byQuit := r.Intn(2) == 0
 		catchUp := time.Duration(20+r.Intn(30)) * time.Millisecond
 		done := make(chan struct{})
@@ -413,6 +416,8 @@ func c16Pressure(c *fw.Ctx, r *rand.Rand, idx int) {
 				s.send("isready")
 			}
 			s.send("go depth 1")
+			// give the search time to end and its result to queue up behind the backlog before the GUI quits
+			time.Sleep(catchUp + 30*time.Millisecond)
 			if byQuit {
 				s.send("quit")
 			} else {
@@ -420,11 +425,18 @@ func c16Pressure(c *fw.Ctx, r *rand.Rand, idx int) {
 			}
 			close(done)
 		}()
-		time.Sleep(catchUp)
-		if idx%4 == 0 {
-			s.slowNs.Store(int64(500+r.Intn(2500)) * 1000) // the GUI catches up slowly: the queue stays full for a while
+		// the GUI stays behind until quit / end of input has been sent, then catches up (slowly, half the time)
+		select {
+		case <-done:
+		case <-time.After(uciWatchdog):
+			c.Violate("driver:shutdown", "driver stopped reading its input for good after the GUI fell behind: %s\n%s", what(), stacks())
+			return
 		}
-		s.paused.Store(false) // the GUI catches up
+		time.Sleep(catchUp / 4)
+		if idx%4 == 0 {
+			s.slowNs.Store(int64(500+r.Intn(2500)) * 1000) // the queue stays full for a while
+		}
+		s.paused.Store(false)
 		select {
 		case <-done:
 		case <-time.After(uciWatchdog):
